@@ -525,6 +525,27 @@ impl<'a> VisitMut for Rewriter<'a> {
                             Some(parse_quote! { vx_join(#(#args),*) })
                         }
                     }
+                    "matches" => {
+                        // R25: `matches!(e, PAT [if G])` is std's `match e { PAT [if G] => true, _ => false }`
+                        let parsed = m.mac.parse_body_with(|input: syn::parse::ParseStream| {
+                            let e: Expr = input.parse()?;
+                            let _: Token![,] = input.parse()?;
+                            let pat = Pat::parse_multi_with_leading_vert(input)?;
+                            let guard: Option<Expr> = if input.peek(Token![if]) { let _: Token![if] = input.parse()?; Some(input.parse()?) } else { None };
+                            let _: Option<Token![,]> = input.parse()?;
+                            Ok((e, pat, guard))
+                        });
+                        match parsed {
+                            Ok((e2, pat, guard)) => {
+                                self.fired.push("R25-matches".into());
+                                match guard {
+                                    Some(g) => Some(parse_quote! { (match #e2 { #pat if #g => true, _ => false }) }),
+                                    None => Some(parse_quote! { (match #e2 { #pat => true, _ => false }) }),
+                                }
+                            }
+                            Err(_) => fail("rule-refused", format!("{}: matches! arguments", self.name)),
+                        }
+                    }
                     other => fail("unsupported", format!("{}: macro `{}!` in extracted item", self.name, other)),
                 }
             }
@@ -646,6 +667,27 @@ impl<'a> VisitMut for Rewriter<'a> {
         let old = std::mem::take(&mut b.stmts);
         for st in old.into_iter() {
             let mut replaced = false;
+            // R26: `debug_assert!(c)` / `debug_assert_eq!(a, b)` / `debug_assert_ne!(a, b)` become a proof obligation on the
+            // evaluated condition (`let vx_da = c; proof { assert(vx_da); }`): a debug build panics exactly when it is false
+            if let Stmt::Macro(sm) = &st {
+                let mname = sm.mac.path.segments.last().map(|x| x.ident.to_string()).unwrap_or_default();
+                if mname == "debug_assert" || mname == "debug_assert_eq" || mname == "debug_assert_ne" {
+                    let args = sm.mac.parse_body_with(punctuated::Punctuated::<Expr, Token![,]>::parse_terminated)
+                        .unwrap_or_else(|_| fail("rule-refused", format!("{}: {}! arguments", self.name, mname)));
+                    let mut it = args.into_iter();
+                    let cond: Expr = match mname.as_str() {
+                        "debug_assert" => it.next().unwrap_or_else(|| fail("rule-refused", format!("{}: empty debug_assert!", self.name))),
+                        "debug_assert_eq" => { let a = it.next().unwrap(); let b2 = it.next().unwrap(); parse_quote! { (#a) == (#b2) } }
+                        _ => { let a = it.next().unwrap(); let b2 = it.next().unwrap(); parse_quote! { (#a) != (#b2) } }
+                    };
+                    let nm = format_ident!("vx_da{}", self.counter);
+                    self.counter += 1;
+                    b.stmts.push(parse_quote! { let #nm: bool = #cond; });
+                    b.stmts.push(parse_quote! { vx_debug_assert!(#nm); });
+                    self.fired.push("R26-debug-assert-as-obligation".into());
+                    replaced = true;
+                }
+            }
             if let Stmt::Local(l) = &st {
                 if let (Pat::Reference(r), Some(init)) = (&l.pat, &l.init) {
                     if let (Pat::Struct(ps), Expr::Path(_)) = (&*r.pat, &*init.expr) {
